@@ -76,6 +76,40 @@ def gen_episode(rng, live=None, long=False):
     return ops
 
 
+def multi_epoch_episodes():
+    """several half-open episodes in a row — each with fewer successes than success_threshold and then a failure —
+    before a last one with exactly success_threshold successes: nothing a failed episode counted carries over into the
+    next (the breaker closes on the last success of the last episode, not before; no trial is refused for lack of budget)"""
+    eps = []
+    for ft, st, mx in ((1, 2, 3), (1, 1, 1), (2, 2, 2), (1, 3, 3), (2, 3, 5), (3, 2, 2)):
+        for pattern in ([0], [1], [0, 0], [1, 0], [st - 1, st - 1], [0, 1, 0]):
+            pattern = [min(k, st - 1) for k in pattern]
+            iv, to = 1000, 10
+            ops = ["cb new %d %d %d %d %d" % (ft, st, mx, iv, to)]
+            t, tid = 0, 0
+
+            def call(res):
+                nonlocal tid
+                tid += 1
+                ops.append("cb begin %d %d" % (tid, t))
+                ops.append("cb end %d %s %d" % (tid, res, t))
+            for _ in range(ft):
+                call("fail")
+                t += 1
+            for k in pattern:
+                t += to + 1
+                for _ in range(k):
+                    call("ok")
+                call("fail")
+            ops.append("cb changes")
+            ops.append("# recovery")
+            t += to + 1
+            for _ in range(st):
+                call("ok")
+            eps.append(ops)
+    return eps
+
+
 def parse_obs(o):
     w = o.split()
     st = w[1].split("=")[1]
@@ -88,6 +122,9 @@ def oracle(ep, outs, want=("C07", "C08")):
     if ep[0].startswith("cb race"):
         return [] if outs and outs[0] == "within-budget" else \
             ["half-open budget exceeded by callers arriving together: %s -> %s" % (ep[0], outs[0] if outs else "?")]
+    if ep[0].startswith("cb reopen"):
+        return [] if outs and outs[0] == "single-trial" else \
+            ["a backend was contacted while the breaker was open and its timeout had not elapsed (callers racing a failed trial): %s -> %s" % (ep[0], outs[0] if outs else "?")]
     if ep[0].startswith("cb notifyrace"):
         return [] if outs and outs[0] == "live" else \
             ["C08: state-change notification blocks request processing: %s -> %s" % (ep[0], outs[0] if outs else "?")]
@@ -244,6 +281,8 @@ def run_checks(ctx, want):
         # callers arriving together at the open -> half-open transition (real goroutines)
         rounds = 3000 if ctx.thorough() else 300
         episodes += [["cb race %d %d %d" % (c, m, rounds)] for c, m in ((2, 1), (6, 1), (12, 1), (8, 2))]
+        episodes += [["cb reopen %d %d" % (c, rounds * 2)] for c in (3, 8, 16)]
+    episodes += multi_epoch_episodes()
     if "C08" in want:
         # state changes from concurrent requests while an observer that reads the breaker is running
         episodes += [["cb notifyrace %d %d" % (c, 1500 if ctx.thorough() else 150)] for c in (2, 4, 8)]
